@@ -1,7 +1,547 @@
-//! C19 — not built yet.
-use crate::report::Tier;
+//! C19 — graph algorithms compute what their definitions say.
+//!
+//! Runtime monitor: small random directed multigraphs (plus every simple digraph with
+//! self-loops on <= 3 / <= 4 nodes) are loaded into a real `LpgStore`; every bundled algorithm
+//! of `grafeo_adapters::plugins::algorithms` is run for every source/target choice and judged
+//! by brute-force / by-definition oracles (`c19_oracle.rs`). A failing (algorithm, clause) is
+//! shrunk to a 1-minimal witness graph whose skeleton is the signature (scheme 3).
 
-pub fn run(_tier: Tier, _seed: u64) -> ! {
-    println!("INCONCLUSIVE property=C19 reason=monitor not built yet");
-    std::process::exit(2)
+#[path = "c19_checks_a.rs"]
+mod checks_a;
+#[path = "c19_checks_b.rs"]
+mod checks_b;
+#[path = "c19_model.rs"]
+mod model;
+#[path = "c19_oracle.rs"]
+mod oracle;
+
+use crate::report::{Report, Tier};
+use crate::rng::Rng;
+use model::{Built, G, Num, Out, Slot, build, directed_witnesses, exhaustive_graph, gen_graph, view_matches};
+use oracle::P;
+use serde_json::{Value as J, json};
+use std::collections::{BTreeMap, HashMap, HashSet};
+use std::sync::atomic::{AtomicU64, Ordering};
+use std::sync::{Arc, Mutex};
+use std::time::{Duration, Instant};
+
+type GroupFn = fn(&G, &Built, &P, &mut Out);
+
+const GROUPS: &[(&str, GroupFn)] = &[
+    ("shortest_path", checks_a::check_sp),
+    ("traversal", checks_a::check_trav),
+    ("components", checks_a::check_comp),
+    ("mst", checks_a::check_mst),
+    ("flow", checks_b::check_flow),
+    ("structure", checks_b::check_struct),
+    ("centrality", checks_b::check_cent),
+    ("clustering", checks_b::check_clust),
+    ("community", checks_b::check_comm),
+];
+
+// ------------------------------------------------------------------------------------------
+// reducer (delta debugging on nodes, edges, numbers, flags)
+// ------------------------------------------------------------------------------------------
+
+struct Reducer<'a> {
+    group: GroupFn,
+    algo: &'static str,
+    clause: &'a str,
+    slot: Option<&'a Slot>,
+    case: u64,
+    tests: u64,
+    /// verdicts of earlier candidate tests of this worker (tiny candidates recur constantly)
+    cache: &'a mut HashMap<(&'static str, String, String), bool>,
+}
+
+impl Reducer<'_> {
+    /// The engine iterates randomly seeded hash maps, so a defective algorithm may fail on
+    /// one run and pass on the next: a candidate counts as failing if one of three runs fails.
+    fn fails(&mut self, g: &G) -> bool {
+        let key = (self.algo, self.clause.to_string(), g.show());
+        if let Some(v) = self.cache.get(&key) {
+            return *v;
+        }
+        let v = self.fails_uncached(g);
+        if self.cache.len() > 300_000 {
+            self.cache.clear();
+        }
+        self.cache.insert(key, v);
+        v
+    }
+
+    fn fails_uncached(&mut self, g: &G) -> bool {
+        let p = g.plain();
+        for _ in 0..3 {
+            self.tests += 1;
+            let b = build(g);
+            let mut out = Out::new(self.slot, self.case);
+            (self.group)(g, &b, &p, &mut out);
+            if out.devs.iter().any(|d| d.algo == self.algo && d.clause == self.clause) {
+                return true;
+            }
+        }
+        false
+    }
+
+    fn reduce(&mut self, g0: &G) -> G {
+        let mut g = g0.clone();
+        loop {
+            let mut changed = false;
+            // nodes, last first
+            let mut i = g.n;
+            while i > 0 {
+                i -= 1;
+                if g.n > 1 {
+                    let c = g.remove_node(i);
+                    if self.fails(&c) {
+                        g = c;
+                        changed = true;
+                    }
+                }
+            }
+            // edges, last first
+            let mut k = g.edges.len();
+            while k > 0 {
+                k -= 1;
+                let mut c = g.clone();
+                c.edges.remove(k);
+                if self.fails(&c) {
+                    g = c;
+                    changed = true;
+                }
+            }
+            // flags
+            if g.gaps.iter().any(|x| *x) {
+                let mut c = g.clone();
+                c.gaps = vec![false; c.n];
+                if self.fails(&c) {
+                    g = c;
+                    changed = true;
+                }
+            }
+            if g.use_w {
+                let mut c = g.clone();
+                c.use_w = false;
+                for e in &mut c.edges {
+                    e.w = Num::Miss;
+                }
+                if self.fails(&c) {
+                    g = c;
+                    changed = true;
+                }
+            } else if g.edges.iter().any(|e| e.w != Num::Miss) {
+                for e in &mut g.edges {
+                    e.w = Num::Miss; // ignored by the engine when no weight property is passed
+                }
+            }
+            if g.use_cap {
+                let mut c = g.clone();
+                c.use_cap = false;
+                for e in &mut c.edges {
+                    e.cap = Num::Miss;
+                    e.cost = Num::Miss;
+                }
+                if self.fails(&c) {
+                    g = c;
+                    changed = true;
+                }
+            } else if g.edges.iter().any(|e| e.cap != Num::Miss || e.cost != Num::Miss) {
+                for e in &mut g.edges {
+                    e.cap = Num::Miss;
+                    e.cost = Num::Miss;
+                }
+            }
+            // numbers: walk each down the simplification ladder
+            for k in 0..g.edges.len() {
+                for field in 0..3 {
+                    let cur = match field {
+                        0 => g.edges[k].w,
+                        1 => g.edges[k].cap,
+                        _ => g.edges[k].cost,
+                    };
+                    for cand in Num::LADDER {
+                        if cand.rank() >= cur.rank() {
+                            break;
+                        }
+                        if field > 0 && cand.or(0.0) < 0.0 {
+                            continue; // capacities and costs stay non-negative
+                        }
+                        let mut c = g.clone();
+                        match field {
+                            0 => c.edges[k].w = cand,
+                            1 => c.edges[k].cap = cand,
+                            _ => c.edges[k].cost = cand,
+                        }
+                        if self.fails(&c) {
+                            g = c;
+                            changed = true;
+                            break;
+                        }
+                    }
+                }
+            }
+            // pairs of numbers: get rid of an unusual value (0, negative, fraction) by changing
+            // it together with one other number of the same kind
+            if !changed && g.edges.len() <= 8 {
+                let get = |g: &G, k: usize, f: usize| match f {
+                    0 => g.edges[k].w,
+                    1 => g.edges[k].cap,
+                    _ => g.edges[k].cost,
+                };
+                let set = |g: &mut G, k: usize, f: usize, v: Num| match f {
+                    0 => g.edges[k].w = v,
+                    1 => g.edges[k].cap = v,
+                    _ => g.edges[k].cost = v,
+                };
+                'pairs: for f in 0..3 {
+                    for i in 0..g.edges.len() {
+                        let ci = get(&g, i, f);
+                        if ci.rank() < 3 {
+                            continue;
+                        }
+                        for j in 0..g.edges.len() {
+                            if i == j {
+                                continue;
+                            }
+                            let cj = get(&g, j, f);
+                            for a in Num::LADDER {
+                                for b in Num::LADDER {
+                                    if a.rank() >= ci.rank() || a.rank() + b.rank() >= ci.rank() + cj.rank() {
+                                        continue;
+                                    }
+                                    if f > 0 && (a.or(0.0) < 0.0 || b.or(0.0) < 0.0) {
+                                        continue;
+                                    }
+                                    let mut c = g.clone();
+                                    set(&mut c, i, f, a);
+                                    set(&mut c, j, f, b);
+                                    if self.fails(&c) {
+                                        g = c;
+                                        changed = true;
+                                        break 'pairs;
+                                    }
+                                }
+                            }
+                        }
+                    }
+                }
+            }
+            if !changed {
+                break;
+            }
+        }
+        g
+    }
+}
+
+// ------------------------------------------------------------------------------------------
+// one case
+// ------------------------------------------------------------------------------------------
+
+#[derive(Default)]
+struct Acc {
+    cases: u64,
+    calls: BTreeMap<&'static str, u64>,
+    notes: BTreeMap<&'static str, u64>,
+    features: BTreeMap<&'static str, u64>,
+    hashes: HashSet<u64>,
+    devs: Vec<(u64, String, J)>,
+    samples: Vec<(u64, J)>,
+    precondition_failed: Vec<String>,
+    harness_errors: Vec<String>,
+    reductions: u64,
+    reduction_tests: u64,
+    cache: HashMap<(&'static str, String, String), bool>,
+}
+
+fn case_graph(seed: u64, plan: &Plan, idx: u64) -> (G, &'static str) {
+    if idx < plan.directed.len() as u64 {
+        return (plan.directed[idx as usize].clone(), "directed");
+    }
+    let idx = idx - plan.directed.len() as u64;
+    if idx < plan.exh.len() as u64 {
+        let (n, code, pat) = plan.exh[idx as usize];
+        (exhaustive_graph(n, code, pat), "exhaustive")
+    } else {
+        let mut r = Rng::new(seed, "c19.graph", idx);
+        (gen_graph(&mut r), "random")
+    }
+}
+
+fn run_case(idx: u64, g: &G, kind: &'static str, sample: bool, slot: &Slot, acc: &mut Acc) {
+    acc.cases += 1;
+    let b = build(g);
+    if !view_matches(g, &b) {
+        acc.precondition_failed.push(g.show());
+        return;
+    }
+    let p = g.plain();
+    *acc.features.entry(match kind {
+        "exhaustive" => "kind.exhaustive",
+        "directed" => "kind.directed_witness",
+        _ => "kind.random",
+    })
+    .or_insert(0) += 1;
+    for f in g.features() {
+        *acc.features.entry(f).or_insert(0) += 1;
+    }
+    *acc.features.entry(match g.n {
+        0..=2 => "nodes<=2",
+        3..=4 => "nodes3-4",
+        5..=7 => "nodes5-7",
+        _ => "nodes8-9",
+    })
+    .or_insert(0) += 1;
+    if g.n >= 2 && !g.edges.is_empty() {
+        acc.hashes.insert(g.hash());
+    }
+    let mut summary = Vec::new();
+    for (gname, group) in GROUPS {
+        let mut out = Out::new(Some(slot), idx);
+        group(g, &b, &p, &mut out);
+        for (k, v) in &out.calls {
+            *acc.calls.entry(k).or_insert(0) += v;
+        }
+        for (k, v) in &out.notes {
+            *acc.notes.entry(k).or_insert(0) += v;
+        }
+        for d in out.devs {
+            let mut red = Reducer { group: *group, algo: d.algo, clause: &d.clause, slot: Some(slot), case: idx, tests: 0, cache: &mut acc.cache };
+            let w = red.reduce(g);
+            acc.reductions += 1;
+            acc.reduction_tests += red.tests;
+            let sig = format!("algo:{}.{}|{}", d.algo, d.clause, w.feature_class());
+            // what the engine does on the reduced witness itself
+            let on_witness = {
+                let bw = build(&w);
+                let mut o2 = Out::new(Some(slot), idx);
+                group(&w, &bw, &w.plain(), &mut o2);
+                o2.devs.into_iter().find(|x| x.algo == d.algo && x.clause == d.clause).map(|x| x.detail)
+            };
+            summary.push(sig.clone());
+            acc.devs.push((
+                idx,
+                sig,
+                json!({"case": idx, "kind": kind, "group": gname, "algorithm": d.algo, "clause": d.clause,
+                       "graph": g.to_json(), "reduced_witness": w.to_json(), "reduced_witness_skeleton": w.skeleton(), "observation_on_reduced_witness": on_witness,
+                       "observation_on_original_graph": d.detail}),
+            ));
+        }
+    }
+    // the first six random cases of the run (independent of thread scheduling)
+    if kind == "random" && sample {
+        acc.samples.push((idx, json!({"case": idx, "graph": g.to_json(), "deviating": summary})));
+    }
+}
+
+struct Plan {
+    directed: Vec<G>,
+    exh: Vec<(usize, u64, bool)>,
+    random: u64,
+}
+
+fn plan(tier: Tier) -> Plan {
+    let mut exh = Vec::new();
+    let maxn = tier.pick(3usize, 4usize);
+    for n in 0..=maxn {
+        // every digraph with self-loops allowed, no parallel edges, unweighted call
+        for code in 0..(1u64 << (n * n)) {
+            exh.push((n, code, false));
+        }
+    }
+    // the loop-free ones again with a fixed weight / capacity / cost pattern
+    for n in 2..=maxn {
+        for code in 0..(1u64 << (n * n)) {
+            if (0..n).all(|u| code >> (u * n + u) & 1 == 0) {
+                exh.push((n, code, true));
+            }
+        }
+    }
+    Plan { directed: directed_witnesses(), exh, random: tier.pick(2_000, 100_000) }
+}
+
+const HANG_CPU_SECS: f64 = 10.0;
+const BLOCKED_WALL_SECS: u64 = 1200;
+
+pub fn run(tier: Tier, seed: u64) -> ! {
+    let mut rep = Report::new("C19", tier, seed, "exploration");
+    rep.rule = "case = one directed multigraph (<= 9 nodes, <= 24 edges; random shapes: sparse, dense, DAG, bidirected, two parts, cycle+chords, tree, near-complete; self-loops, parallel and antiparallel edges, isolated nodes, Int64/Float64/missing weight, capacity and cost properties, negative weights, node-id gaps) or one member of the exhaustive enumeration of all digraphs with self-loops on <= 3 (quick) / <= 4 (thorough) nodes, loaded into an LpgStore; every bundled algorithm runs on it for every source/target. Non-trivial = at least 2 nodes and 1 edge; distinct by hash of the literal graph (edge order, numbers, flags).".into();
+    rep.assumptions = vec![
+        "weights/capacities/costs are dyadic rationals (k/2), so float sums are exact; comparisons use 1e-9 relative (flows 1e-7)".into(),
+        "non-numeric weight values are not generated (docs: Int64/Float64, default 1.0 when the property is missing; default capacity 1.0, default cost 0.0)".into(),
+        "Dijkstra and A* are only run on non-negative weights; Bellman-Ford, Floyd-Warshall, Kruskal and Prim also get negative weights; costs and capacities are always >= 0".into(),
+        "with a (reachable) negative cycle only the detection flag is judged; path reconstruction is not called (it is not defined then)".into(),
+        "A* heuristics: zero, and a per-node fraction {0,1/2,1} of the true remaining distance (admissible, not consistent) - the doc requires admissibility only".into(),
+        "MST is judged on the underlying undirected multigraph (module doc + code comments 'treating as undirected'); Prim must span exactly the component of its start node, Kruskal every component".into(),
+        "max_flow/min_cost_max_flow report one flow per node pair: judged against the summed capacity of the parallel edges; min cost is judged on the true multigraph (each parallel edge its own cost)".into(),
+        "bridges: for node pairs joined by several edges both readings are accepted (simple-graph: reported if removing all of them disconnects; multigraph: not a bridge); demanded only where the readings agree".into(),
+        "k-core: the result must match the definition under at least one consistent reading (parallel edges collapsed or counted, a self-loop adding 0, 1 or 2 to the degree)".into(),
+        "betweenness: paths counted as edge sequences or as node sequences (either accepted), documented normalisation 2/((n-1)(n-2)); closeness/BFS on out-edges as the code documents".into(),
+        "clustering: triangle = three distinct pairwise adjacent nodes (doc); local coefficient accepted with the degree counting or not counting a self-loop".into(),
+        "PageRank: non-negative, sums to 1 +- 1e-6 for every parameter choice; fixed point of the PageRank equation (multigraph or simple reading) only when max_iterations suffices for convergence".into(),
+        "dfs_all: documented as reverse post-order, so the reversed result must be a depth-first finishing order; dfs: post-order".into(),
+        "community detection: sanity only (every node assigned, communities do not span disconnected parts, counts consistent, documented label normalisation); Louvain modularity vs Newman's definition is counted as information, not judged".into(),
+        format!("an engine call that burns more than {HANG_CPU_SECS} s of thread CPU time on a <= 9-node graph is re-run once with a 2x budget; only a reproduced stall is reported (hang:<algorithm>), otherwise inconclusive; wall clock is not used"),
+    ];
+
+    let plan = Arc::new(plan(tier));
+    let total = (plan.directed.len() + plan.exh.len()) as u64 + plan.random;
+    let first_random = (plan.directed.len() + plan.exh.len()) as u64;
+    let next = Arc::new(AtomicU64::new(0));
+    let workers = std::thread::available_parallelism().map_or(8, |n| n.get()).min(32);
+    let results: Arc<Mutex<Vec<Acc>>> = Arc::new(Mutex::new(Vec::new()));
+    let slots: Vec<Arc<Slot>> = (0..workers).map(|_| Arc::new(Slot::new())).collect();
+    // debugging aids: VH_C19_ONLY=<case index> judges that single case of the run
+    let only: Option<u64> = std::env::var("VH_C19_ONLY").ok().and_then(|s| s.parse().ok());
+    let mut handles = Vec::new();
+    for w in 0..workers {
+        let (plan, next, results, slot) = (plan.clone(), next.clone(), results.clone(), slots[w].clone());
+        handles.push(std::thread::Builder::new().stack_size(16 << 20).spawn(move || {
+            let mut acc = Acc::default();
+            slot.register_current_thread();
+            loop {
+                let idx = next.fetch_add(1, Ordering::Relaxed);
+                if idx >= total {
+                    break;
+                }
+                if only.is_some_and(|o| o != idx) {
+                    continue;
+                }
+                let (g, kind) = case_graph(seed, &plan, idx);
+                {
+                    let mut st = slot.state.lock().unwrap();
+                    *st = (idx, "build", st.2 + 1, false);
+                }
+                let r = std::panic::catch_unwind(std::panic::AssertUnwindSafe(|| run_case(idx, &g, kind, idx >= first_random && idx < first_random + 6, &slot, &mut acc)));
+                if let Err(e) = r {
+                    let msg = e.downcast_ref::<String>().cloned().or_else(|| e.downcast_ref::<&str>().map(|s| (*s).to_string())).unwrap_or_default();
+                    acc.harness_errors.push(format!("case {idx}: {msg}"));
+                }
+            }
+            slot.state.lock().unwrap().3 = true;
+            results.lock().unwrap().push(acc);
+        }));
+    }
+    drop(handles); // never joined: a stalled worker must not block the verdict
+
+    // watchdog: a worker that burns more than HANG_CPU_SECS of CPU inside one engine call
+    let mut stalled: Vec<(u64, &'static str)> = Vec::new();
+    let mut lost = vec![false; workers];
+    let mut seen: Vec<(u64, f64, Instant)> = vec![(u64::MAX, 0.0, Instant::now()); workers];
+    loop {
+        std::thread::sleep(Duration::from_millis(50));
+        let mut live = 0;
+        for (w, s) in slots.iter().enumerate() {
+            if lost[w] {
+                continue;
+            }
+            let (case, algo, seq, fin) = *s.state.lock().unwrap();
+            if fin {
+                continue;
+            }
+            let cpu = s.cpu_seconds().unwrap_or(0.0);
+            if seq != seen[w].0 {
+                seen[w] = (seq, cpu, Instant::now());
+            } else if cpu - seen[w].1 > HANG_CPU_SECS {
+                stalled.push((case, algo));
+                lost[w] = true;
+                continue;
+            } else if seen[w].2.elapsed() > Duration::from_secs(BLOCKED_WALL_SECS) {
+                rep.inconclusive(&format!("worker blocked without using CPU for {BLOCKED_WALL_SECS}s in {algo} on case {case}"));
+                lost[w] = true;
+                continue;
+            }
+            live += 1;
+        }
+        if live == 0 {
+            break;
+        }
+    }
+    // confirmation runs for the first stalls (2x CPU budget inside the same algorithm)
+    for (idx, algo) in stalled.iter().skip(3) {
+        rep.inconclusive(&format!("engine call {algo} stalled on case {idx}; not re-run (only the first three stalls are confirmed)"));
+    }
+    for (idx, algo) in stalled.iter().take(3) {
+        let (g, _) = case_graph(seed, &plan, *idx);
+        let slot = Arc::new(Slot::new());
+        let s2 = slot.clone();
+        let g2 = g.clone();
+        let idx2 = *idx;
+        std::thread::spawn(move || {
+            s2.register_current_thread();
+            let mut acc = Acc::default();
+            run_case(idx2, &g2, "confirm", false, &s2, &mut acc);
+            s2.state.lock().unwrap().3 = true;
+        });
+        let mut confirmed = false;
+        let mut last = (u64::MAX, 0.0);
+        loop {
+            std::thread::sleep(Duration::from_millis(100));
+            let (_, a, seq, fin) = *slot.state.lock().unwrap();
+            if fin {
+                break;
+            }
+            let cpu = slot.cpu_seconds().unwrap_or(0.0);
+            if seq != last.0 {
+                last = (seq, cpu);
+            } else if cpu - last.1 > 2.0 * HANG_CPU_SECS && a == *algo {
+                confirmed = true;
+                break;
+            }
+        }
+        if confirmed {
+            rep.deviation(&format!("hang:{algo}"), json!({"case": idx, "graph": g.to_json(), "algorithm": algo, "note": "did not return; reproduced on a second run with 2x CPU budget"}));
+        } else {
+            rep.inconclusive(&format!("engine call {algo} used > {HANG_CPU_SECS}s CPU on case {idx} but did not reproduce"));
+        }
+    }
+
+    // merge (order-independent: sums, set union, deviations sorted by case index)
+    let mut accs = std::mem::take(&mut *results.lock().unwrap());
+    let mut devs: Vec<(u64, String, J)> = Vec::new();
+    let mut samples: Vec<(u64, J)> = Vec::new();
+    let mut cases = 0;
+    for a in accs.iter_mut() {
+        cases += a.cases;
+        for (k, v) in &a.calls {
+            rep.count(&format!("checks.{k}"), *v);
+            rep.evals(*v);
+        }
+        for (k, v) in &a.notes {
+            rep.count(&format!("note.{k}"), *v);
+        }
+        for (k, v) in &a.features {
+            rep.count(&format!("graphs.with.{k}"), *v);
+        }
+        for h in &a.hashes {
+            rep.nontrivial(*h);
+        }
+        rep.count("reductions", a.reductions);
+        rep.count("reduction_tests", a.reduction_tests);
+        devs.append(&mut a.devs);
+        samples.append(&mut a.samples);
+        for e in &a.precondition_failed {
+            rep.inconclusive(&format!("store view differs from the model graph (not a C19 matter): {e}"));
+        }
+        for e in &a.harness_errors {
+            rep.inconclusive(&format!("harness error: {e}"));
+        }
+    }
+    rep.count("graphs.total", cases);
+    if only.is_none() && cases + (stalled.len() as u64) < total {
+        rep.inconclusive(&format!("only {cases} of {total} cases were judged"));
+    }
+    devs.sort_by(|a, b| a.0.cmp(&b.0).then(a.1.cmp(&b.1)));
+    let mut per_sig: BTreeMap<String, u64> = BTreeMap::new();
+    for (_, sig, detail) in devs {
+        *per_sig.entry(sig.clone()).or_insert(0) += 1;
+        rep.deviation(&sig, detail);
+    }
+    rep.extra.insert("deviation_signatures".into(), json!(per_sig));
+    samples.sort_by_key(|s| s.0);
+    for (_, s) in samples.into_iter().take(6) {
+        rep.sample(s);
+    }
+    rep.finish()
 }
